@@ -63,6 +63,7 @@ func protect(sa *security.IKESAKey, m *message.IKEMessage, role message.Role, rn
 // unprotect; withHdr: header pre-parsed from the same bytes
 func unprotect(sa *security.IKESAKey, b []byte, role message.Role, withHdr bool) callRes {
 	in := exact(b)
+	setCase("unprotect-raw " + roleName(role) + " " + hx(b))
 	return guard(func() (string, error) {
 		var h *message.IKEHeader
 		if withHdr {
